@@ -1,5 +1,5 @@
 """C01 - Compiled programs behave as DDP's evaluation rules prescribe.   DESIGN.md §4 C01"""
-import vlib, ddp, semrun, semgen, corpus
+import vlib, ddp, semrun, semgen, corpus, parsecheck
 from vlib import Check
 
 
@@ -26,6 +26,9 @@ def run(tier):
     ck.cov["programs"] += r2["n_progs"]
     for k, stage, msg, src in (r["compile_failed"] + r2["compile_failed"])[:3]:
         vlib.log("NOT COMPILED:", k, stage, msg[-300:])
+    # the shape of the real parser's tree for operator chains without parentheses (Precedence.tla), decided by ParseTrace
+    ck.cov["parse_structure"] = parsecheck.check(ck, tier, rng)
+    ck.cov["traces_validated_against_impl"] += ck.cov["parse_structure"]["chains"]
     # the repository's own programs: the tree the REAL parser built, exported by astx, evaluated by DDPSem, against the executable of the original source
     cc = corpus.check_semantics(ck, (1,) if tier == "quick" else (0, 1, 2), "corpus", subset=("kddp" if tier == "quick" else "all"))
     ck.cov["corpus"] = cc
